@@ -1,4 +1,5 @@
 import Sif.Proofs.C07
+import Sif.Props.C06
 /-
   C07 — peg supply conservation on lock/burn; pause and blacklist stop exports.
   Property theorems only (helpers: Sif/Proofs/C07.lean, Sif/Proofs/BridgeBank.lean).  Quantifiers: every state
@@ -15,6 +16,12 @@ theorem facts_guards :
     BridgeConsts.processLockGuards = ["IsBlacklisted"] ∧ BridgeConsts.processBurnGuards = ["IsBlacklisted"] ∧
     BridgeConsts.blacklistNormalised = true ∧ BridgeConsts.cethSymbol = "ceth" ∧
     BridgeConsts.lockGasCost = 23580000000000000 ∧ BridgeConsts.burnGasCost = 23580000000000000 := by decide
+
+/-- the peggy-token list is maintained by exact string comparison (`AddPeggyToken` inserts unless `ExistsPeggyToken`,
+    which tests `value == token`), as `addPeggy` / `List.contains` model it -/
+theorem facts_peggy_list :
+    BridgeConsts.addPeggyTests = ["k.ExistsPeggyToken(ctx, token)"] ∧ BridgeConsts.existsPeggyTests = ["value == token"] := by
+  decide
 
 /-! ### effects of one lock / burn message (`pegStep` is also what the driver evaluates on the implementation) -/
 
@@ -253,5 +260,104 @@ example : exState.bank.bal 5 "cusdc" < (exMsg "cusdc").amount.toNat := by decide
     insufficient funds for the amount or the fee, a panic), a failed message changes nothing. -/
 theorem failed_changes_nothing (ord : List Group → List Group) (vals : List Validator) (s : BState) (m : Msg) (f : Fail)
     (h : (deliver ord vals s m).2 = .failed f) : (deliver ord vals s m).1 = s := deliver_failed h
+
+/-! ### what the bridge minted is pegged -/
+
+/-- After an accepted claim that reports SUCCESS, the stored peggy-token list is the old list plus exactly the credited
+    denomination `"c" ++ symbol` (exact string) for a lock claim, and unchanged for a burn claim (`peggyRegOK` is also
+    evaluated by the driver on the implementation's lists). -/
+theorem credit_registers_denom (ord : List Group → List Group) (vals : List Validator) (s : BState) (m : ClaimMsg)
+    (h : (deliver ord vals s (.claim m)).2 = .claimed .success) :
+    peggyRegOK (finalOf (deliver ord vals s (.claim m)).1.oracle (claimOf m).id) s.peggy
+      (deliver ord vals s (.claim m)).1.peggy = true := by
+  rcases deliver_claim_cases ord vals s m with ⟨f, hd⟩ | ⟨s', status, hc, hd⟩
+  · rw [hd] at h; cases h
+  · rw [hd] at h ⊢
+    cases h
+    obtain ⟨o, fin, hp, eo, _, _, _, _, hcase⟩ := createClaim_ok hc
+    obtain ⟨_, _, fa⟩ := processClaim_status hp
+    simp only
+    rw [eo, fa]
+    rcases hcase with ⟨_, hsucc⟩ | ⟨hs, _⟩
+    · cases fin with
+      | empty => simp [processSuccessfulClaim] at hsucc
+      | eth r a sym t c =>
+        by_cases hc2 : c = 2
+        · subst hc2
+          obtain ⟨_, _, _, _, _, _, _, _, _, _, _, hpeg⟩ := processSuccessfulClaim_ok hsucc
+          have hp' := hpeg r a sym t rfl
+          obtain ⟨a1, a2, a3⟩ := addPeggy_spec s.peggy (peggedPrefix ++ sym)
+          simp only [peggyRegOK, if_true, hp', Bool.and_eq_true, List.all_eq_true]
+          refine ⟨⟨a1, fun x hx => a2 x (by simpa using hx)⟩, fun x hx => ?_⟩
+          rcases a3 x (by simpa using hx) with h1 | h1
+          · have : x ∈ s.peggy := by simpa using h1
+            simp [this]
+          · simp [h1]
+        · have hp' := processSuccessfulClaim_peggy_other hsucc hc2
+          simp only [peggyRegOK, hc2, if_false, hp', Bool.and_eq_true, List.all_eq_true]
+          exact ⟨fun x hx => by simpa using hx, fun x hx => by simpa using hx⟩
+    · exact (hs rfl).elim
+
+theorem run_peggy_grows (ord : List Group → List Group) (steps : List Step) (w : World) (d : String)
+    (h : w.s.peggy.contains d = true) : (run ord w steps).s.peggy.contains d = true := by
+  induction steps generalizing w with
+  | nil => exact h
+  | cons st rest ih =>
+    apply ih
+    cases st with
+    | setVals v => exact h
+    | msg m => exact Sif.Props.C06.peggy_only_grows ord w.vals w.s m d h
+
+/-- **What the bridge minted is pegged, for good.**  Every denomination a history credited for a consensus-approved
+    lock claim is in the peggy-token list at the end of the history (whatever happened in between): a `MsgLock` of it
+    is refused and a `MsgBurn` of it is never refused as "native token". -/
+theorem minted_only_burnable (ord : List Group → List Group) (steps : List Step) (w : World) (d : String)
+    (hd : d ∈ mintedOf ord w steps) :
+    (run ord w steps).s.peggy.contains d = true ∧
+    (∀ pm : PegMsg, pm.symbol = d → (∃ f, lock (run ord w steps).s pm = .error f) ∧
+      burn (run ord w steps).s pm ≠ .error (.err .native)) := by
+  have hin : (run ord w steps).s.peggy.contains d = true := by
+    induction steps generalizing w with
+    | nil => simp [mintedOf] at hd
+    | cons st rest ih =>
+      have hrun : run ord w (st :: rest) = run ord (stepWorld ord w st) rest := rfl
+      rw [hrun]
+      simp only [mintedOf, List.mem_append] at hd
+      rcases hd with h1 | h1
+      · apply run_peggy_grows
+        cases st with
+        | setVals v => simp [stepMinted] at h1
+        | msg m =>
+          cases m with
+          | claim cm =>
+            simp only [stepMinted] at h1
+            split at h1
+            · rename_i hs
+              split at h1
+              · rename_i r a sym t hf
+                simp only [List.mem_singleton] at h1
+                subst h1
+                exact (Sif.Props.C06.lock_then_only_burnable ord w.vals w.s cm r a sym t hs hf).1
+              · simp at h1
+            · simp at h1
+          | lock pm => simp [stepMinted] at h1
+          | burn pm => simp [stepMinted] at h1
+          | pause a p => simp [stepMinted] at h1
+          | blacklist a l => simp [stepMinted] at h1
+          | cethReceiver a r => simp [stepMinted] at h1
+          | rescue a r n => simp [stepMinted] at h1
+          | whitelist a op v => simp [stepMinted] at h1
+      · exact ih (stepWorld ord w st) h1
+  refine ⟨hin, fun pm hsym => ⟨?_, ?_⟩⟩
+  · cases hl : lock (run ord w steps).s pm with
+    | error f => exact ⟨f, rfl⟩
+    | ok r =>
+      have := native_only_lock _ r.1 pm r.2 hl
+      rw [hsym, hin] at this
+      cases this
+  · intro hb
+    have := burn_native_refusal hb
+    rw [hsym, hin] at this
+    cases this
 
 end Sif.Props.C07
